@@ -229,6 +229,14 @@ class Rng:
     def chance(self, num, den):
         return self.below(den) < num
 
+    def sample(self, l, k):
+        """k distinct elements of l, in drawn order"""
+        pool = list(l)
+        out = []
+        for _ in range(min(k, len(pool))):
+            out.append(pool.pop(self.below(len(pool))))
+        return out
+
     def bytes(self, n):
         return bytes(self.below(256) for _ in range(n))
 
